@@ -134,7 +134,7 @@ type tspec struct {
 	amt  uint64
 }
 
-var amounts = []uint64{1, 1, 1, 2, 3, 1 << 31, 1<<33 - 2, 1 << 62}
+var amounts = []uint64{1, 1, 1, 2, 3, 1 << 31, 1<<33 - 2, 1 << 62, 1 << 33, 1<<40 + 7, 1<<33 + 5, math.MaxInt64}
 
 // plan: systematic schedule = run the current thread; at reported step number
 // plan.at[i] switch to thread plan.to[i]; when the current thread is done,
@@ -262,7 +262,7 @@ func scenarioCfg(cfg *scenCfg) int {
 	if kind == "plain" {
 		nadd = 2 + rnd.Intn(3)
 	}
-	big := rnd.Chance(12)
+	big := rnd.Chance(12) || (kind == "open" && rnd.Chance(15))
 	for i := 0; i < nadd; i++ {
 		a := Pick(rnd, amounts[:5])
 		if big {
